@@ -36,7 +36,7 @@ class AnchorLost(Exception):
 
 
 DIRECTIVES = ("props", "attr", "result", "requires", "ensures", "decreases", "start", "loop", "loopstart",
-              "loopend", "before", "after", "closure", "noctl", "recommends", "tail")
+              "loopend", "before", "after", "closure", "noctl", "recommends", "tail", "summary")
 
 
 class Clause:
@@ -165,7 +165,7 @@ def _parse_directive(st, ln, auto):
         return tok, k, s
 
     kind = kw
-    if kw in ("requires", "ensures", "decreases", "start", "attr", "result", "props", "recommends", "tail", "noctl"):
+    if kw in ("requires", "ensures", "decreases", "start", "attr", "result", "props", "recommends", "tail", "noctl", "summary"):
         rest = take_id(rest)
     elif kw == "loop":
         n, rest = take_int(rest)
